@@ -11,13 +11,14 @@ import Gv.Oracle.SW
 import Gv.Oracle.Models
 import Gv.Oracle.Pool
 import Gv.Oracle.Dist
+import Gv.Oracle.ProtDist
 /-!
 oracle: reads lines `<id> \t <impl result> \t <op> \t <arg>...` and prints
 `<id> \t <model result> \t <verdict>`.
 -/
 open Gv Gv.Oracle
 
-def handlers : List Handler := [SeqOps.handle, BagOps.handle, RandOps.handle, SitesOps.handle, CleanOps.handle, StatsOps.handle, DedupOps.handle, MaskOps.handle, SWOps.handle, Models.handle, PoolOps.handle, DistOps.handle, PureOps.handle]
+def handlers : List Handler := [SeqOps.handle, BagOps.handle, RandOps.handle, SitesOps.handle, CleanOps.handle, StatsOps.handle, DedupOps.handle, MaskOps.handle, SWOps.handle, Models.handle, PoolOps.handle, DistOps.handle, PureOps.handle, ProtDistOps.handle]
 
 def answer (op : String) (args : List String) (impl : String) : Ans :=
   match handlers.findSome? (fun h => h op args impl) with
